@@ -164,6 +164,10 @@ def find_value_printer(ctx):
 
 def run(ctx, rep):
     ix, T = ctx.ix, ctx.typer
+    from .common import check_memo_numeric_keys
+    check_memo_numeric_keys(ctx, rep, "C01.9")
+    from .common import check_number_finite
+    check_number_finite(ctx, rep, "C01.10")
     from .common import check_falsy_zero
     check_falsy_zero(ctx, rep, "C01.7", ['jaqalpaq.generator'], floor_positions=5)
     from .c18 import fill_order
